@@ -13,6 +13,7 @@ import (
 	"net/http"
 	"net/url"
 	"strings"
+	"time"
 
 	"github.com/gobwas/httphead"
 	"github.com/gobwas/ws"
@@ -644,6 +645,128 @@ func subReuse() mon.Sub {
 	}
 }
 
+// subRealDial: the package-level ws.Dial and a Dialer without NetDial go through the operating system's loopback
+// interface to a scripted TCP peer: the address in the URL is the address connected to, the request is the compliant
+// one, a valid 101 is accepted and what the server sends behind it is readable. URLs that are no ws/wss URL are
+// refused without a connection.
+func subRealDial() mon.Sub {
+	return mon.Sub{
+		Name: "real-dial",
+		N: func(t string) int {
+			if t == "thorough" {
+				return 400
+			}
+			return 40
+		},
+		Do: func(c *mon.C) {
+			c.Count(1)
+			host := []string{"127.0.0.1", "[::1]", "localhost"}[c.I%3]
+			laddr := map[string]string{"127.0.0.1": "127.0.0.1:0", "[::1]": "[::1]:0", "localhost": "127.0.0.1:0"}[host]
+			l, err := net.Listen("tcp", laddr)
+			if err != nil {
+				c.Inconclusive("no loopback listener: " + err.Error())
+				return
+			}
+			defer l.Close()
+			_, port, _ := net.SplitHostPort(l.Addr().String())
+			ustr := fmt.Sprintf("ws://%s:%s%s", host, port, []string{"/", "/chat?x=1", "", "/a%20b/c"}[c.I/3%4])
+			tr := trailing(c, 4096, c.I)
+			type srvRes struct {
+				req   []byte
+				conns int
+			}
+			resCh := make(chan srvRes, 1)
+			go func() {
+				var r srvRes
+				cn, err := l.Accept()
+				if err != nil {
+					resCh <- r
+					return
+				}
+				r.conns = 1
+				cn.SetDeadline(time.Now().Add(20 * time.Second))
+				br := bufio.NewReader(cn)
+				for !bytes.HasSuffix(r.req, []byte("\r\n\r\n")) {
+					b, err := br.ReadByte()
+					if err != nil {
+						break
+					}
+					r.req = append(r.req, b)
+				}
+				if hr, err := http.ReadRequest(bufio.NewReader(bytes.NewReader(r.req))); err == nil {
+					resp := "HTTP/1.1 101 Switching Protocols\r\nUpgrade: websocket\r\nConnection: Upgrade\r\nSec-WebSocket-Accept: " + ref.Accept(hr.Header.Get("Sec-Websocket-Key")) + "\r\n\r\n"
+					cn.Write(append([]byte(resp), tr...))
+				}
+				cn.Close()
+				resCh <- r
+			}()
+			mode := c.I / 12 % 3
+			det := map[string]interface{}{"url": ustr, "mode": []string{"ws.Dial", "ws.Dialer{}.Dial", "bad url"}[mode], "trailing_len": len(tr)}
+			ctx, cancel := context.WithTimeout(context.Background(), 30*time.Second)
+			defer cancel()
+			if mode == 2 {
+				// not a ws/wss URL: an error, no connection (nothing was ever connected to)
+				bad := []string{"http://" + host + ":" + port + "/", "https://" + host + ":" + port + "/", "/relative/path", "ws//" + host, "://x", host + ":" + port}[c.I%6]
+				det["url"] = bad
+				cn, br, _, err := ws.Dial(ctx, bad)
+				l.Close()
+				r := <-resCh
+				if err == nil || cn != nil || br != nil {
+					c.Fail("real-dial/bad-url-accepted", fmt.Sprintf("Dial(%q) returned err=%v conn=%v", bad, err, cn != nil), det)
+					return
+				}
+				if r.conns != 0 {
+					c.Fail("real-dial/bad-url-connected", "a connection was opened for a URL that is no ws/wss URL", det)
+					return
+				}
+				c.Classf("real-dial|bad-url|%d", c.I%6)
+				return
+			}
+			var (
+				cn net.Conn
+				br *bufio.Reader
+			)
+			if mode == 0 {
+				cn, br, _, err = ws.Dial(ctx, ustr)
+			} else {
+				cn, br, _, err = ws.Dialer{ReadBufferSize: bufSizes[c.I%len(bufSizes)]}.Dial(ctx, ustr)
+			}
+			if err != nil {
+				if host == "localhost" && strings.Contains(err.Error(), "lookup") {
+					c.Inconclusive("localhost does not resolve here")
+					return
+				}
+				c.Fail("real-dial/failed", "Dial over the loopback interface to a compliant peer failed: "+err.Error(), det)
+				return
+			}
+			var got []byte
+			if br != nil {
+				p := make([]byte, br.Buffered())
+				io.ReadFull(br, p)
+				got = append(got, p...)
+				ws.PutReader(br)
+			}
+			cn.SetReadDeadline(time.Now().Add(20 * time.Second))
+			rest, _ := io.ReadAll(cn)
+			got = append(got, rest...)
+			cn.Close()
+			r := <-resCh
+			u, _ := url.ParseRequestURI(ustr)
+			if _, ok := checkRequest(c, DCfg{Header: "nil"}, u, r.req, det); !ok {
+				return
+			}
+			if !bytes.Equal(got, tr) {
+				c.Fail("real-dial/post-handshake-bytes", fmt.Sprintf("bytes sent after the response head: got %d, sent %d (first difference at %d)", len(got), len(tr), firstDiff(got, tr)), det)
+				return
+			}
+			c.Classf("real-dial|%s|%d|trail=%d", host, mode, c.I%len(trailLens))
+			if c.WantSample() {
+				c.Sample(det)
+			}
+		},
+	}
+}
+
 func subRandom() mon.Sub {
 	return mon.Sub{
 		Name: "random", Required: true,
@@ -674,6 +797,6 @@ func main() {
 		Rule: "a scripted in-memory peer records the request the dialer writes (parsed by net/http: GET, request-URI, HTTP/1.1, Host or override, exactly the required headers, a fresh base64 key of 16 bytes, configured subprotocols/extensions/extra headers; NetDial address and TLS hostname for Dial) and answers with a grammar-generated response built from what it actually received (10 factors: version token, status token incl. non-digit and overflowing forms, reason, Upgrade, Connection, Sec-WebSocket-Accept, subprotocol, extensions, extra headers, line ends), followed by post-handshake bytes of length {0,1,2,100,buf-1,buf,buf+1,70000} delivered in the same read as the head, byte by byte, or under other chunk plans. " +
 			"Cases: every single-factor variant x 4 configurations x 3 URLs, every pair of non-canonical variants, valid responses x all trailing lengths x deliveries x buffer sizes x protocol lists through Upgrade and Dial, seeded random derivations, and ONE Dialer value reused for 2-4 handshakes with differently answering servers (every request carries the configured offer, the configuration is unchanged). Oracle: three-valued verdict on the derivation; reported protocol/extensions == sent; buffer-then-connection yields exactly the trailing bytes. distinct = (outcome, verdict, non-canonical variants, trailing class, delivery, config sizes).",
 		Assumptions: []string{"net/http.ReadRequest is the independent request parser", "OPEN: LF-only line ends, duplicated valid headers, Connection token list in a response, two subprotocol headers / empty / list values, version tokens HTTP/1.01 and http/1.1", "TLS hostname for IPv6 literals is not constrained"},
-		Subs:        []mon.Sub{subSingle(), subPairs(), subTrailing(), subRandom(), subReuse()},
+		Subs:        []mon.Sub{subSingle(), subPairs(), subTrailing(), subRandom(), subReuse(), subRealDial()},
 	})
 }
